@@ -237,6 +237,23 @@ for depth, (wc, rct), for_task in itertools.product((1, 2), PAIRS, (False, True)
         leg.violation(key, f"extract_child changed the options: {res['opts']} != {(wc, rct)}")
     G3.close()
 
+# 4b. option values that are truthy / falsy without being bools (callers do pass 0 / 1): recursion "off" is whatever is falsy
+for rct_val in (0, 1, "", "yes"):
+    key = ("extract_child-nonbool-option", repr(rct_val))
+    leg.case(key, True)
+    res = {}
+    G5 = probe(); next(G5)
+    def do_child5():
+        res["st"] = E.extract_child(G5, for_task=True)
+    ACTION[0] = do_child5
+    stackscope.extract(G, with_contexts=True, recurse_child_tasks=rct_val)
+    st5 = res.get("st")
+    if st5 is None:
+        leg.violation(key, "extract_child was not reached")
+    elif bool(st5.frames) != bool(rct_val):
+        leg.violation(key, f"recurse_child_tasks={rct_val!r}: a child task came out with {len(st5.frames)} frames (a stub is due iff the option is falsy)")
+    G5.close()
+
 # 5. with_contexts=False: no contexts anywhere, same frames
 leg.case("no-contexts", True)
 a_, b_ = stackscope.extract(G, with_contexts=True), stackscope.extract(G, with_contexts=False)
